@@ -212,6 +212,24 @@ def startsWithParen : Nat → SExp → Bool
     | .list [.atom "dur", _, .atom "0", .list l, _] => startsWithParen fuel (.list l)
     | _ => false
 
+/-- does the printed form of an operand END with an `offset` whose argument starts with `(` (no `@` /
+    anchored / smoothed, which the printer would move in front of it: that is the class
+    offset-expr-moved-behind-modifier)?  Such an operand can only stand in front of an arithmetic operator
+    if the source had `offset +( … )`: without the sign the parenthesis opens a greedy duration expression. -/
+def endsWithParenOffset : Nat → SExp → Bool
+  | 0, _ => false
+  | fuel + 1, e =>
+    match e with
+    | .list [.atom "vs", _, _, .list [.atom "offe", x], .atom "-", .atom "-"] => startsWithParen 64 x
+    | .list [.atom "sub", _, _, _, _, _, .list [.atom "offe", x], .atom "-"] => startsWithParen 64 x
+    | .list [.atom "mat", sel, _, _] => endsWithParenOffset fuel sel
+    | .list [.atom "bin", _, _, _, _, r] => endsWithParenOffset fuel r
+    | .list [.atom "un", _, x] => endsWithParenOffset fuel x
+    | _ => false
+
+/-- the operators a duration expression continues with: + - * / % ^ -/
+def isArithOpHex (op : String) : Bool := ["2b", "2d", "2a", "2f", "25", "5e"].contains op
+
 mutual
 /-- defect classes present in a tree (see known_findings.jsonl). -/
 def SExp.features : SExp → List String
@@ -223,7 +241,10 @@ def SExp.features : SExp → List String
       | [.atom "off", .atom n] => if subMs n then ["submillisecond-duration"] else []
       | [.atom "mat", _, .atom n, _] => if subMs n then ["submillisecond-duration"] else []
       | [.atom "sub", _, .atom n, _, .atom m, _, _, _] => if subMs n || subMs m then ["submillisecond-duration"] else []
-      | [.atom "num", .atom b, .atom "1"] => if durLitTruncated b then ["duration-literal-truncated"] else []
+      | [.atom "num", .atom b, .atom "1"] =>
+        -- `-0s`: NumberLiteral{Val: -0, Duration: true}; the printer tests `Val < 0`, so the sign of the zero is lost
+        (if b == "8000000000000000" then ["duration-literal-negative-zero"] else []) ++
+        (if durLitTruncated b then ["duration-literal-truncated"] else [])
       | .atom "grp" :: ls =>
         (if ls.any (fun | .atom a => badLabel a | _ => false) then ["label-lexed-as-keyword"] else []) ++
         (if ls.any (fun | .atom a => atomHasRC a | _ => false) then ["replacement-char-in-string"] else [])
@@ -232,6 +253,13 @@ def SExp.features : SExp → List String
         (if ls.any (fun | .atom a => atomHasRC a | _ => false) then ["replacement-char-in-string"] else [])
       | [.atom "m", _, .atom n, .atom v] => if atomHasRC n || atomHasRC v then ["replacement-char-in-string"] else []
       | [.atom "str", .atom v] => if atomHasRC v then ["replacement-char-in-string"] else []
+      | [.atom "bin", .atom op, _, _, l, _] =>
+        -- `x offset +(step()) - 60s` prints `x offset (step()) - 1m`: the dropped `+` lets the parenthesis swallow `- 1m`
+        if isArithOpHex op && endsWithParenOffset 64 l then ["offset-expr-sign-dropped"] else []
+      | [.atom "vm", _, _, _, _, .atom fl, .atom fr] =>
+        -- fill_left / fill_right with zeros of opposite sign: the printer compares them with `==` and prints one `fill (…)`
+        if (fl == "0000000000000000" && fr == "8000000000000000") || (fl == "8000000000000000" && fr == "0000000000000000")
+        then ["fill-zero-signs-merged"] else []
       | [.atom "vs", _, _, .list [.atom "offe", x], atm, ext] =>
         if startsWithParen 64 x && (atm.render != "-" || ext.render != "-") then ["offset-expr-moved-behind-modifier"] else []
       | [.atom "sub", _, _, _, _, _, .list [.atom "offe", x], atm] =>
@@ -247,7 +275,7 @@ def featuresEach : List SExp → List String
  end
 
 def kindOrder : List String :=
-  ["inf-literal-unary-plus", "label-lexed-as-keyword", "replacement-char-in-string", "offset-expr-sign-dropped", "offset-expr-moved-behind-modifier", "duration-literal-truncated", "submillisecond-duration"]
+  ["inf-literal-unary-plus", "label-lexed-as-keyword", "replacement-char-in-string", "offset-expr-sign-dropped", "offset-expr-moved-behind-modifier", "duration-literal-truncated", "submillisecond-duration", "duration-literal-negative-zero", "fill-zero-signs-merged"]
 
 def kindOf (a : SExp) : String :=
   let fs := a.features
